@@ -77,7 +77,10 @@ structure FmtRegions (o : FormatOpts) (boot : FBoot) (ft : FatType) (Lb Lk Lz Lf
         (List.replicate (boot.bpb.spc * boot.bpb.bps) 0) Lc ∧
       (∃ tc, boot.bpb.totalClusters = .ok tc ∧
         TileAt boot.bpb.bps ((fsInfoBytes (fmtInfo tc 2)).take 512 ++ List.replicate (boot.bpb.bps - 512) 0) Li) ∧
-      labelSpec o ((boot.bpb.reserved + boot.bpb.fats * boot.bpb.sectorsPerFat) * boot.bpb.bps) Ll) ∨
+      labelSpec o ((boot.bpb.reserved + boot.bpb.fats * boot.bpb.sectorsPerFat) * boot.bpb.bps) Ll ∧
+      (∃ s dA dB, (fmtSlice boot.bpb).beginOff + (fmtSlice boot.bpb).mirrors * (fmtSlice boot.bpb).size ≤ dA.img.size ∧
+        run (Table.allocCluster DiskSlice.strm .fat32 (fmtSlice boot.bpb) none none 1) dA = (.ok (2, s), dB) ∧
+        Seg dA dB La)) ∨
     (ft ≠ .fat32 ∧ labelSpec o ((boot.bpb.reserved + boot.bpb.fats * boot.bpb.sectorsPerFat) * boot.bpb.bps) Lt)
 
 theorem fsInfoBytes_len (i : FsInfoSt) : (fsInfoBytes i).length = 512 := by
@@ -145,7 +148,8 @@ theorem FormatLog.regions {o : FormatOpts} {t : Nat} {boot : FBoot} {ft : FatTyp
         obtain ⟨L, hL, hW⟩ := hms.1.within rfl
         rw [hwindow] at hW
         rw [← Seg.unique hL hsa]; exact hW
-      refine ⟨rfl, La, Lc, Li, Ll, hLt, hWa, ?_, ⟨tc, htc, ?_⟩, hp.label⟩
+      refine ⟨rfl, La, Lc, Li, Ll, hLt, hWa, ?_, ⟨tc, htc, ?_⟩, hp.label,
+        ⟨s2, dC, dB2, by rw [hsizeC, hsizeK]; omega, by rw [← hrc]; exact hrun2, hsa⟩⟩
       · have := hp.clus
         rw [hrc, hg.rds32 rfl] at this
         simpa using this
